@@ -95,6 +95,8 @@ def main(argv):
     texts = [t for t, _ in GD.stratified(rng, opts)]
     for k in range(n):
         texts.append(GD.generate(rng, opts, n_packets=rng.choice([1, 2]), trees=rng.choice([0, 0, 1]))[0])
+    # legal recursion through arrays without static size: accepted in every declaration order
+    texts += GD.recursive_descriptions(rng)
     for text in texts:
         base = analyze(text)
         run.case((text, "base"))
@@ -171,8 +173,8 @@ def main(argv):
             run.violation("impl", "the set of reported error codes depends on the declaration order: %s vs %s" % (c1, c2),
                           {"pdl": t2, "original": text, "signature": {"class": "ill-perm", "a": c1, "b": c2}})
     # -- groups as inlined
-    for k in range(n):
-        ga, gb = GG.gen(rng)
+    for k in range(2 * n):
+        ga, gb = GG.gen(rng) if k < n else GG.gen_shared(rng)
         ra, rb = analyze(ga), analyze(gb)
         run.case((ga, "group"))
         run.hist("variants", "group-vs-inlined")
